@@ -27,7 +27,7 @@ from mc import gen
 
 VALUES = [0, False, None, "", "é", 1.5, [1, (2,)], {"k": [0]}, {1, 2}, (1, "a")] + gen.SUBTYPE_VALUES[:1] + gen.SUBTYPE_VALUES[2:7] + gen.SUBTYPE_VALUES[8:9]
 DEFAULTS = ["d0", 11, 2.5, "d3", True, "d5"]
-CONTEXTS = ["top", "list", "list2", "dict", "deep", "bean-list", "bean-dict"]
+CONTEXTS = ["top", "list", "list2", "dict", "deep", "bean-list", "bean-dict", "deep40"]
 PATHS = ["dump-load", "dumps-loads", "rpc-param-2", "rpc-param-1", "rpc-result-2", "rpc-result-1"]
 
 
@@ -42,6 +42,10 @@ def embed(ctx, x):
         return {"k": x}
     if ctx == "deep":
         return [{"k": [x]}]
+    if ctx == "deep40":
+        for i in range(40):
+            x = {"k": x} if i % 2 else [x]
+        return x
     outer = beans.Plain()
     if ctx == "bean-list":
         outer.items = [x]
@@ -61,6 +65,10 @@ def extract(ctx, y):
         return y["k"]
     if ctx == "deep":
         return y[0]["k"][0]
+    if ctx == "deep40":
+        for i in reversed(range(40)):
+            y = y["k"] if i % 2 else y[0]
+        return y
     if ctx == "bean-list":
         return y.items[0]
     return y.d["k"]
@@ -209,7 +217,7 @@ def value_cases(tier):
         for a in assigns:
             for ctx in CONTEXTS:
                 for path in PATHS:
-                    if tier == "quick" and ctx in ("list2", "deep") and path not in ("dump-load", "rpc-param-2"):
+                    if tier == "quick" and ctx in ("list2", "deep", "deep40") and path not in ("dump-load", "rpc-param-2"):
                         continue
                     for local in (False, True):
                         if tier == "quick" and local and path in ("rpc-param-1", "rpc-result-1") and ctx not in ("top", "list"):
@@ -329,7 +337,7 @@ META = {
     "rule": "shapes: every class hierarchy with storage in {__dict__, __slots__, slots on dict base, dict on slots base}, depth 0-2 (thorough 0-3), "
     "0-2 fields per level drawn from {public, protected, name-mangled}, through dump/load (top) and dumps/loads (in a list), and the depth 0-1 hierarchies "
     "again with class names that start with one or two underscores; values: 13 representative "
-    "hierarchies x each field over 17 values (primitives, containers, and values of subclass types: OrderedDict, Counter, dict/list/str/int subclasses, namedtuple) (all pairs for 2-field classes) x 7 contexts x 6 paths (dump/load, dumps/loads, RPC parameter and result under "
+    "hierarchies x each field over 17 values (primitives, containers, and values of subclass types: OrderedDict, Counter, dict/list/str/int subclasses, namedtuple) (all pairs for 2-field classes) x 8 contexts (top, containers, beans, 40 levels deep) x 6 paths (dump/load, dumps/loads, RPC parameter and result under "
     "1.0 and 2.0) x module-qualified / locally registered; serialize: serialisation-method classes (list args, dict args, custom method name) x 8 "
     "attribute values x contexts x paths; singletons: 5 enum members and 7 Decimals x contexts x paths; histories: every sequence of 3 (thorough 4) round trips "
     "over 4 classes x module/local naming (all local classes share one bare name in different class tables); every case is non-trivial",
